@@ -1242,12 +1242,15 @@ func genC19(tier string, rng *Rng) {
 			{HWCavailability: map[uint32]uint32{2: 3}},
 			{FlowMessage: 2},
 			{FlowMessage: 1, PanelInfo: &rwp.PanelInfo{Name: "N3"}, HWCavailability: map[uint32]uint32{9: 9}},
+			// an ack that also carries content: gorwp drops a binary ACK frame whole; in ASCII mode the same message
+			// is an "ack" line plus separate lines that ARE dispatched
+			{FlowMessage: 2, PanelInfo: &rwp.PanelInfo{Name: "N4"}, Events: []*rwp.HWCEvent{{HWCID: 1, Binary: &rwp.BinaryEvent{Pressed: true}}}},
 		}
 		for i := range alpha {
 			g.add(&scenario{Bin: bin, Init: g.stdInit(bin, 0), Items: g.msgItems(bin, alpha[i])})
 			for j := range alpha {
 				if thorough || (i+j)%2 == 0 {
-					g.add(&scenario{Bin: bin, Init: g.stdInit(bin, 1), Items: g.msgItems(bin, alpha[i], alpha[j])})
+					g.add(&scenario{Bin: bin, Init: g.stdInit(bin, 1), Binds: []bindSpec{{1, 1, 1, 1}}, Items: g.msgItems(bin, alpha[i], alpha[j])})
 				}
 			}
 		}
